@@ -130,8 +130,8 @@ RENDERINGS = [
     ('"key": "value"', ('2', 6), r'"%(key)s[0-9]*": "' + INQ + '*"'),
     ("'key': u'value'", ('2', 7), r"'%(key)s[0-9]*': u'" + INQ + "*'"),
     ("'key', '--flag', 'value'", ('2', 8),
-     r"'%(key)s[0-9]*', '--[A-Za-z]+', '" + INQ + "*'"),
-    ('key --flag value', ('2', 9), r'%(key)s[0-9]* --[A-Za-z]+ \S+'),
+     r"'%(key)s[0-9]*', '--?[A-Za-z_]+', '" + INQ + "*'"),
+    ('key --flag value', ('2', 9), r'%(key)s[0-9]* --?[A-Za-z_]+ \S+'),
 ]
 
 
@@ -188,11 +188,13 @@ def render(how, key, value):
         'dict-u': "u'%s': u'%s'" % (key, value),
         'list-flag': "'%s', '--flag', '%s'" % (key, value),
         'cmd-flag': '%s --flag %s' % (key, value),
+        'list-flag-underscore': "'%s', '--new_value', '%s'" % (key, value),
+        'cmd-flag-short': '%s -v %s' % (key, value),
     }[how]
 
 
 QUOTED = ('dq', 'sq', 'key-space-quoted', 'xml', 'json', 'dict', 'dict-u',
-          'list-flag')
+          'list-flag', 'list-flag-underscore')
 
 
 @bounded('C04', targets=[(SU, 'mask_password')],
@@ -212,7 +214,7 @@ def end_to_end_family():
                 ('2024-01-01 INFO run: ', '\nnext line')]
     hows = ['bare', 'bare-spaced', 'dq', 'sq', 'key-space-quoted',
             'dashdash', 'xml', 'json', 'dict', 'dict-u', 'list-flag',
-            'cmd-flag']
+            'cmd-flag', 'list-flag-underscore', 'cmd-flag-short']
     for key in KEYS:
         forms = [key, key.upper(), key.capitalize(), key + '2']
         for form in forms:
@@ -221,7 +223,8 @@ def end_to_end_family():
                 if form != key:
                     pool = r.sample(pool, 4)
                 for sec in pool:
-                    if how in ('bare', 'bare-spaced', 'cmd-flag') and (
+                    if how in ('bare', 'bare-spaced', 'cmd-flag',
+                               'cmd-flag-short') and (
                             '"' in sec or "'" in sec):
                         continue
                     if how == 'dashdash' and '=' in sec:
